@@ -4,7 +4,11 @@
 export GOFLAGS=-mod=mod GOPROXY=off GOSUMDB=off GOTOOLCHAIN=local
 REPO=${1:-/repo}
 OUT=$(mktemp /tmp/baseline.XXXXXX.json)
-(cd "$REPO" && go test -mod=mod -json -vet=off -count=1 -timeout 25m ./... > "$OUT" 2>/dev/null)
+# BASELINE_FAST=1: only the top-level tests the pinned list names (the rest of pkg/fs runs out of descriptors at the pinned commit
+# already and only costs time); everything still has to compile. Used while confirming seeded changes, never for fix commits.
+RUN=""
+if [ -n "$BASELINE_FAST" ]; then RUN="-run ^(TestFileInfo_IsDir|TestFileInfo_ModTime|TestFileInfo_Mode|TestFileInfo_Name|TestFileInfo_Size|TestFileInfo_Sys|TestFile_Name|TestNewFileInfo|TestNewFileInfoFromTarHeader)\$"; fi
+(cd "$REPO" && go test -mod=mod -json -vet=off -count=1 -timeout 25m $RUN ./... > "$OUT" 2>/dev/null)
 python3 - "$OUT" <<'PY'
 import json,sys
 want=set(json.load(open('/root/.vp/BASELINE.json'))['stable_pass'])
